@@ -23,6 +23,12 @@ structure DSt where
   lastSel : List Commit := []
   /-- number of times the block at a height was replaced -/
   gens : List (Nat × Nat) := []
+  /-- (tip, maxHeightCertified at that tip), newest first: deleting blocks restores the value of the new tip -/
+  hist : List (Nat × Nat) := []
+  /-- sync rule: the chain changed and no `state` op followed yet -/
+  dirty : Bool := false
+  /-- number of params / noparams ops since the reset -/
+  np : Nat := 0
 
 def genOf (gens : List (Nat × Nat)) (h : Nat) : Nat := ((gens.find? (fun e => e.1 == h)).map (·.2)).getD 0
 
@@ -35,6 +41,17 @@ def DSt.state (d : DSt) : State :=
     params := d.params
     mhpc := d.mhpc
     mhc := d.mhc }
+
+/-- maxHeightCertified at the tip `t`: the newest record at or below it (0 at genesis) -/
+def mhcAt (hist : List (Nat × Nat)) (t : Nat) : Nat := ((hist.find? (fun e => e.1 ≤ t)).map (·.2)).getD 0
+
+/-- record the certified height of the tip `t` (records above `t` belong to deleted blocks) -/
+def record (hist : List (Nat × Nat)) (t mhc : Nat) : List (Nat × Nat) := (t, mhc) :: hist.filter (fun e => e.1 < t)
+
+/-- `k` more replacements for each of the heights `t, t-1, .., t-k+1` -/
+def bumpGens (gens : List (Nat × Nat)) : Nat → Nat → List (Nat × Nat)
+  | _, 0 => gens
+  | t, k + 1 => bumpGens ((gens.filter (fun e => e.1 != t)) ++ [(t, genOf gens t + 1)]) (t - 1) k
 
 def natList (s : String) : Option (List Nat) :=
   if s == "-" then some [] else (s.splitOn ",").mapM (·.toNat?)
@@ -136,10 +153,11 @@ def applyBlock (d : DSt) (ac : AggCommit) : DSt × String :=
   match verifyAggregateCommit d.state ac with
   | .accept =>
     let d1 := { d with tip := d.tip + 1 }
-    (if ac.isEmpty then d1 else { d1 with mhc := ac.height }, "applied")
+    let d2 := if ac.isEmpty then d1 else { d1 with mhc := ac.height }
+    ({ d2 with hist := record d2.hist d2.tip d2.mhc }, "applied")
   | _ => (d, "rejected")
 
-def step (d : DSt) (w : List String) : DSt × String :=
+def step0 (d : DSt) (w : List String) : DSt × String :=
   match w with
   | "reset" :: rest =>
     let keys := (rest.filterMap (fun a => kv a "keys")).head?.bind natList
@@ -158,12 +176,13 @@ def step (d : DSt) (w : List String) : DSt × String :=
   | ["extend", _] => (d, "ok")
   | "change" :: _ => (d, "ok")
   | ["liveness", _] => (d, "ok")
-  | ["state", tip, mhpc, mhc, rh] =>
-    match tip.toNat?, mhpc.toNat?, mhc.toNat?, rh.toNat? with
-    | some tip, some mhpc, some mhc, some rh =>
-      if mhc ≠ d.mhc then (d, "mhc-diverged " ++ toString d.mhc)
-      else ({ d with tip := tip, mhpc := mhpc, rh := rh }, "ok")
-    | _, _, _, _ => (d, "bad-op")
+  | ["state", tip, mhpc, mhc, rh, np] =>
+    match tip.toNat?, mhpc.toNat?, mhc.toNat?, rh.toNat?, np.toNat? with
+    | some tip, some mhpc, some mhc, some rh, some np =>
+      if np ≠ d.np then (d, "unsynced")
+      else if mhc ≠ d.mhc then (d, "mhc-diverged " ++ toString d.mhc)
+      else ({ d with tip := tip, mhpc := mhpc, rh := rh, hist := record d.hist tip mhc, dirty := false }, "ok")
+    | _, _, _, _, _ => (d, "bad-op")
   | "sc" :: specs =>
     match specs.mapM (parseCommit d) with
     | some ms =>
@@ -186,7 +205,30 @@ def step (d : DSt) (w : List String) : DSt × String :=
     | none => (d, "bad-op")
   | ["pool"] => (d, poolStr d d.pool)
   | "reorg" :: _ =>
-    ({ d with gens := (d.gens.filter (fun e => e.1 != d.tip)) ++ [(d.tip, genOf d.gens d.tip + 1)] }, "ok")
+    -- the certified height is the one below the replaced tip (the replacing block carries the empty commit)
+    ({ d with gens := (d.gens.filter (fun e => e.1 != d.tip)) ++ [(d.tip, genOf d.gens d.tip + 1)],
+              mhc := mhcAt d.hist (d.tip - 1), hist := d.hist.filter (fun e => e.1 < d.tip) }, "ok")
+  | ["rewind", k] =>
+    -- the k tip blocks are deleted: their heights get new block ids when they are filled again, the
+    -- certified height is the one of the new tip (the consensus state of the deleted blocks is reverted)
+    match k.toNat? with
+    | some k =>
+      let k := min k d.tip
+      let t := d.tip - k
+      ({ d with gens := bumpGens d.gens d.tip k, tip := t, mhc := mhcAt d.hist t, hist := d.hist.filter (fun e => e.1 ≤ t) }, "ok")
+    | none => (d, "bad-op")
+  | ["alt", _, "empty"] => (d, "ok")
+  | ["alt", _, "change", _, _, _] => (d, "ok")
+  | ["alt", _, "own"] =>
+    match getAggregateCommit d.state d.pool with
+    | .ok ac => applyBlock d ac
+    | .err => (d, "err")
+    | .panic => (d, "panic")
+  | ["alt", _, "agg", h, bits, sig] =>
+    match h.toNat?, Hex.decode? bits, parseSig d sig with
+    | some h, some bs, some s => applyBlock d ⟨h, Bits.ofBytes bs, s⟩
+    | _, _, _ => (d, "bad-op")
+  | ["restart"] => ({ d with pool := Pool.empty, lastSel := [] }, "ok")
   | ["clear"] => ({ d with pool := Pool.empty }, "ok")
   | ["cleanup"] =>
     match broadcastCleanup d.state d.pool with
@@ -221,6 +263,31 @@ def step (d : DSt) (w : List String) : DSt × String :=
       | _, _, _ => (d, "bad-op")
     else (d, "bad-op")
   | _ => (d, "bad-op")
+
+/-- the sync rule of the line protocol (harness/c06/c06.go): `some d'` = the op runs on `d'`, `none` = `unsynced` -/
+def syncRule (d : DSt) (w : List String) : Option DSt :=
+  match w with
+  | "params" :: _ => some { d with np := d.np + 1 }
+  | "noparams" :: _ => some { d with np := d.np + 1 }
+  | "extend" :: _ => some { d with dirty := true }
+  | "change" :: _ => some { d with dirty := true }
+  | "reorg" :: _ => some { d with dirty := true }
+  | "rewind" :: _ => some { d with dirty := true }
+  | "alt" :: _ :: "own" :: _ => if d.dirty then none else some d
+  | "alt" :: _ :: "agg" :: _ => if d.dirty then none else some d
+  | "alt" :: _ => some { d with dirty := true }
+  | op :: _ =>
+    if ["sc", "certify", "inject", "pool", "cleanup", "select", "upgrade", "getac", "block", "verify", "vblock"].contains op
+      && d.dirty then none else some d
+  | [] => some d
+
+def step (d : DSt) (w : List String) : DSt × String :=
+  match w with
+  | "reset" :: _ => step0 d w
+  | _ =>
+    match syncRule d w with
+    | some d' => step0 d' w
+    | none => (d, "unsynced")
 
 def main : IO Unit := Driver.run ({} : DSt) step
 
